@@ -264,7 +264,7 @@ def run_shard(ctx):
         ctx.seen('merge_shapes', tag)
         one_program(ctx, prog, script, rng, all_settings if not ctx.quick else all_settings[::5] + [(None, None, None, None)])
     # 2. random programs, with conflicts
-    count = ctx.pick(120, 2500)
+    count = ctx.pick(300, 8000)
     rp = gen.RandomPrograms(rng, max_depth=3, max_eqs=6, max_names=8, big_offsets=True, conflict_rate=0.25, funcvar_rate=0.1,
                             lhs_offsets=(0, 0, 0, 0, 0, -1, 1), allow=('num', 'neg', 'bin', 'paren', 'call1', 'call2', 'ifexp', 'cmp', 'named', 'verb', 'block'))
     for k in range(count):
